@@ -14,14 +14,15 @@ ObsOK(o) ==
 PropsOK == AtMostOnce' /\ SuccessOnlyAfterBootstrap' /\ FailsIfEndedOrTimedOutFirst' /\ TermOnTimeout' /\ TempDirRemoved'
            /\ UserDirKept' /\ TempDirKeptWhileRunning' /\ (launch # "p" => launch' = launch)
 Step(e) ==
-  CASE e.a = "Stdout"   -> Stdout(e.marker) /\ UNCHANGED shut
-    [] e.a = "Stderr"   -> Stderr /\ UNCHANGED shut
-    [] e.a = "Connect"  -> Connect(e.how) /\ UNCHANGED shut
-    [] e.a = "CtlReply" -> CtlReply(e.ok) /\ UNCHANGED shut
-    [] e.a = "Progress" -> Progress(e.p) /\ UNCHANGED shut
-    [] e.a = "Timeout"  -> Timeout /\ UNCHANGED shut
-    [] e.a = "Exit"     -> Exit /\ UNCHANGED shut
-    [] e.a = "Shutdown" -> Shutdown
+  CASE e.a = "Stdout"   -> Stdout(e.marker) /\ UNCHANGED <<shut, held>>
+    [] e.a = "Stderr"   -> Stderr /\ UNCHANGED <<shut, held>>
+    [] e.a = "Connect"  -> Connect(e.how) /\ UNCHANGED <<shut, held>>
+    [] e.a = "CtlReply" -> CtlReply(e.ok) /\ UNCHANGED <<shut, held>>
+    [] e.a = "Progress" -> Progress(e.p) /\ UNCHANGED <<shut, held>>
+    [] e.a = "Timeout"  -> Timeout /\ UNCHANGED <<shut, held>>
+    [] e.a = "Exit"     -> Exit /\ UNCHANGED <<shut, held>>
+    [] e.a = "Shutdown" -> Shutdown /\ UNCHANGED held
+    [] e.a = "ExitHeld" -> ExitHeld
     [] OTHER -> FALSE
 TInit == Init /\ tid \in 1..Len(Traces) /\ l = 1 /\ dirKind = Traces[tid].dirkind
 TNext ==
